@@ -52,17 +52,19 @@ def shardStep (interval remainder shardIndex : Int) (st : Int × Int) (i : Nat) 
 def shardLoop (interval remainder shardIndex start : Int) : Int × Int :=
   (List.range (shardIndex + 1).toNat).foldl (shardStep interval remainder shardIndex) (start, 0)
 
-/-- `SequenceDataSource.shard(shard_index, num_shards, offset)` (io.py:61-77).
+/-- The body of `shard` after the `num_shards` check (io.py:64-77).
 `divmod` with a positive divisor is Lean's `Int` `/` and `%` (floor = Euclidean). -/
+def DS.shardCore (d : DS) (shardIndex numShards offset : Int) : DS :=
+  let interval := (d.end - d.start) / numShards
+  let remainder := (d.end - d.start) % numShards
+  let r := shardLoop interval remainder shardIndex d.start
+  { d with state := .child shardIndex numShards offset d.state
+           start := r.1 + offset
+           end_ := some (r.1 + r.2) }
+
+/-- `SequenceDataSource.shard(shard_index, num_shards, offset)` (io.py:61-77). -/
 def DS.shard (d : DS) (shardIndex numShards : Int) (offset : Int := 0) : Except ErrKind DS :=
-  if numShards < 1 then .error .value
-  else
-    let interval := (d.end - d.start) / numShards
-    let remainder := (d.end - d.start) % numShards
-    let r := shardLoop interval remainder shardIndex d.start
-    .ok { d with state := .child shardIndex numShards offset d.state
-                 start := r.1 + offset
-                 end_ := some (r.1 + r.2) }
+  if numShards < 1 then .error .value else .ok (d.shardCore shardIndex numShards offset)
 
 /-- `from_state` (io.py:94-102): replay the parent chain from a fresh `SequenceDataSource(self.data)`. -/
 def fromState (dataLen : Nat) : ShardConfig → Except ErrKind DS
